@@ -148,6 +148,27 @@ func minimize(model porcupine.Model, ops []kop) []kop {
 	return out
 }
 
+// anomalyClass names the shape of a minimised non-linearizable presence history:
+// absent-after-receive (one unexplained read, absent), present-after-remove (one unexplained
+// read, present), inconsistent-reads (only a set of reads is contradictory).
+func anomalyClass(min []kop) string {
+	var reads []kop
+	for _, o := range min {
+		if o.W == 0 || o.W == 4 || o.W == 5 {
+			reads = append(reads, o)
+		}
+	}
+	switch {
+	case len(reads) == 1 && reads[0].W == 0 && reads[0].Present:
+		return "present-after-remove"
+	case len(reads) == 1 && reads[0].W == 0:
+		return "absent-after-receive"
+	case len(reads) == 1:
+		return "stale-or-future-value"
+	}
+	return "inconsistent-reads"
+}
+
 // readKinds returns the sorted distinct kinds of the reads of ops, joined by "+".
 func readKinds(ops []kop) string {
 	set := map[string]bool{}
@@ -179,9 +200,9 @@ func readKinds(ops []kop) string {
 // op kinds and results, clients and times abstracted away).
 func overlapInfo(ops []kop) (anyOverlap, writeOverlap bool, shape uint64) {
 	type evt struct {
-		t    int64
-		ret  bool
-		op   int
+		t   int64
+		ret bool
+		op  int
 	}
 	var evs []evt
 	for i, o := range ops {
